@@ -11,7 +11,7 @@ TECH="SMT-based bounded symbolic execution of the real go/ssa (gosym + z3 5.1/cv
 man={
  "version":1,
  "setup_cmd":"cd /verif/engine && GOFLAGS=-mod=mod GOPROXY=off GOSUMDB=off GOTOOLCHAIN=local go build -o /verif/bin/gosym .",
- "hooks":{"guard":"verif","enable":"build with -tags verif (the engine's package load and the native replay builds both set it): verifPoint(name, args...) then calls the package variable VerifHook if a harness installed one; without the tag verifPoint is an empty function (verif_hooks_off.go). Points: publish (client_updater.go) and four points between the file-system steps of saveState. Harness files themselves are never in /repo: they are injected with go/packages overlays (engine) and `go test -overlay` (native replay)","baseline_off_cmd":"cd /repo && GOFLAGS=-mod=mod GOPROXY=off GOSUMDB=off go test -vet=off -count=1 -timeout 25m ./...","source_commits":["e8c20ca"],"add_only":True},
+ "hooks":{"guard":"verif","enable":"build with -tags verif (the engine's package load and the native replay builds both set it): verifPoint(name, args...) then calls the package variable VerifHook if a harness installed one; without the tag verifPoint is an empty function (verif_hooks_off.go). Points: publish (client_updater.go), four points between the file-system steps of saveState, and one each before the select of CoreLoop and of the request queue loop in runLaterIfActive (used by native replays to hold the core loop back while a request waits). Harness files themselves are never in /repo: they are injected with go/packages overlays (engine) and `go test -overlay` (native replay)","baseline_off_cmd":"cd /repo && GOFLAGS=-mod=mod GOPROXY=off GOSUMDB=off go test -vet=off -count=1 -timeout 25m ./...","source_commits":["e8c20ca","dfd4d68"],"add_only":True},
  "engines":[{"name":"gosym","path":"/verif/engine","serves_properties":sorted(checks.keys()),"kind_free_text":"own symbolic executor for go/ssa (x/tools v0.29.0) with SMT back end (z3 5.1 default, cvc5 1.0.3 optional), path exploration by re-execution with decision vectors, 16 workers each with an incremental solver process, native replay of counterexamples and of witness paths via `go test -overlay`"}],
  "checks":[], "not_applicable":[],
  "notes":"Exit status of every check: 0 = held on everything explored (KNOWN-FINDING lines allowed), 1 = VIOLATION reproduced natively, 2 = inconclusive (bound exceeded, solver unknown, unsupported construct, vacuous harness or encoding mismatch) — never reported as success. See DESIGN.md."
